@@ -46,6 +46,8 @@ func hx0(b []byte) string { return fmt.Sprintf("%x", b) }
 type swGen struct {
 	r       *rand.Rand
 	prioTag bool // the next Ethernet frame is priority-tagged (VLAN id 0)
+	// the frame just generated carries a priority tag
+	sawPrioTag bool
 }
 
 func (g *swGen) u(max uint64) uint64 {
@@ -232,6 +234,7 @@ func (g *swGen) packetOf(e *swExp, prefix string, choice int) []byte {
 		if g.prioTag || g.r.Intn(8) == 0 {
 			vid = 0 // priority-tagged frame (802.1p): a tag whose VLAN id is 0
 			g.prioTag = false
+			g.sawPrioTag = true
 		}
 		x.u16(0x8100, pcp<<13|dei<<12|vid)
 		e.num(prefix+".VLANID.PCP", uint64(pcp))
@@ -239,7 +242,7 @@ func (g *swGen) packetOf(e *swExp, prefix string, choice int) []byte {
 		e.num(prefix+".VLANID.VID", uint64(vid))
 	}
 	if choice < 0 {
-		choice = g.r.Intn(5)
+		choice = g.r.Intn(6)
 	}
 	switch choice {
 	case 0: // IPv4 / ICMP
@@ -378,6 +381,30 @@ func (g *swGen) packetOf(e *swExp, prefix string, choice int) []byte {
 		e.num(p+".HopLimit", uint64(hl))
 		e.raw(p+".NWSrc", sip)
 		e.raw(p+".NWDst", dip)
+	case 5: // IPv4 carrying a protocol the library keeps opaque (TCP with any flag byte, GRE, a short fragment): every
+		// payload byte must come back as it is
+		proto := []int{6, 6, 47, 132}[g.r.Intn(4)]
+		var data []byte
+		if proto == 6 && g.r.Intn(2) == 0 {
+			// a TCP header with CWR / ECE / NS bits set
+			data = nb().u16(int(g.u(0xffff)), int(g.u(0xffff))).u32(uint32(g.u(0xffffffff)), uint32(g.u(0xffffffff))).u8(0x51, 0xc2|g.r.Intn(64)).u16(int(g.u(0xffff)), int(g.u(0xffff)), 0).raw(g.bytes(g.r.Intn(20))).b
+		} else {
+			data = g.bytes(g.r.Intn(24)) // possibly shorter than a transport header (non-first fragment)
+		}
+		sip, dip := g.bytes(4), g.bytes(4)
+		frag := 0
+		if len(data) < 20 {
+			frag = 1 + g.r.Intn(8000)
+		}
+		x.u16(0x0800).u8(0x45, 0).u16(20+len(data), 9, frag).u8(64, proto).u16(0).raw(sip).raw(dip).raw(data)
+		e.num(prefix+".Ethertype", 0x0800)
+		p := prefix + ".Data"
+		e.kind(p, "p.IPv4")
+		e.num(p+".Protocol", uint64(proto))
+		e.num(p+".FragmentOffset", uint64(frag))
+		e.raw(p+".NWSrc", sip)
+		e.raw(p+".NWDst", dip)
+		e.raw(p+".Data", data)
 	default: // unknown ethertype: opaque payload
 		data := g.bytes(g.r.Intn(80))
 		x.u16(0x88b5).raw(data)
@@ -742,7 +769,14 @@ func init() {
 				}
 				c.run("sw", hx(back), len(fr), exp)
 				// … and the parsed message must round-trip like any value the API built (C05)
-				c.run("rtw", hx(back), len(fr))
+				// and its re-encoding must be the frame itself; exceptions: echo with payload (dropped, known finding) and
+				// priority-tagged frames (tag lost on re-encoding, known finding) are left to their own oracles
+				wire := "w"
+				if k == 4 || g.sawPrioTag {
+					wire = "-"
+				}
+				g.sawPrioTag = false
+				c.run("rtw", hx(back), len(fr), wire)
 			}
 		}
 	})
